@@ -157,6 +157,18 @@ if __name__ == '__main__':
     muts = []
     for fn in files:
         muts += make_mutants(fn)
+    only = os.environ.get('SURVEY_ONLY')
+    if only:
+        # re-run only the mutants recorded (SURVIVOR / EXIT2 lines) in an earlier result file
+        keys = set()
+        for line in open(only):
+            parts = line.rstrip('\n').split(' ', 1)
+            if len(parts) == 2 and parts[0] in ('SURVIVOR', 'EXIT2'):
+                body = parts[1].strip()
+                if parts[0] == 'EXIT2':
+                    body = body.rsplit(' | ', 1)[0]
+                keys.add(body)
+        muts = [m for m in muts if '%s %s | %s -> %s' % m[:4] in keys]
     mx = int(os.environ.get('SURVEY_MAX', '0'))
     if mx:
         import random
